@@ -6,7 +6,7 @@
    and were written from the format document only. *)
 From Coq Require Import NArith ZArith List Bool Lia Permutation.
 From NGS Require Import Val Ints Morton ShardBytes MiniShard ShardFile ShardReader ShardSpecReader
-  ShardCanon MiniShardProofs ShardWitness ShardWitnessProofs.
+  ShardCanon MiniShardProofs ShardFileProofs ShardWitness ShardWitnessProofs.
 Import ListNotations.
 Open Scope N_scope.
 
@@ -32,10 +32,7 @@ Print Assumptions C04_every_id_has_a_rank.
    (delta id, delta offset, size) triples) is the canonical one of the stored
    set: ids strictly increasing from the first identifier of the class,
    payloads concatenated in identifier order, empty entries for gaps.
-   FULL statement of close_canonical (file level; not proved, the missing part
-   is the bookkeeping that glues the per-minishard result through the two
-   dictionaries and Shard.close):
-     distinct_ids ops -> files (close (fold store ops init)) = canonical (to_map ops). *)
+   The file level is C04_files_function_of_set below. *)
 Theorem C04_close_canonical_partial : forall sp enc K ops,
   K < 2 ^ (sp_s sp + sp_m sp) -> cbits sp < 2 ^ 64 ->
   ops <> [] -> NoDup (map fst ops) ->
@@ -45,6 +42,22 @@ Theorem C04_close_canonical_partial : forall sp enc K ops,
     ms_close sp st = (closed_mini sp enc (K * 2 ^ sp_p sp) ops, Ok tt).
 Proof. exact mini_close_canonical. Qed.
 Print Assumptions C04_close_canonical_partial.
+
+(* close_canonical, file level: the files after close are a function of the
+   SET of stored (identifier, payload) pairs — any two enumerations of the set
+   give the same result of ShardedScale.close, for all grids, parameters,
+   subsets and orders (proved by induction over the store list with the
+   reorder-buffer invariant, then glued through both dictionaries and
+   Shard.close's sorting).  What is NOT proved is the closed form of that
+   function at byte level (header ++ data ++ transposed indices). *)
+Theorem C04_files_function_of_set : forall sp enc ienc, cbits sp < 2 ^ 64 ->
+  forall ops1 ops2, ops_valid sp ops1 -> Permutation ops1 ops2 ->
+  snd (run_cmc_stores sp enc [] ops1) = map (fun _ => Ok tt) ops1 /\
+  snd (run_cmc_stores sp enc [] ops2) = map (fun _ => Ok tt) ops2 /\
+  scale_close sp ienc (fst (run_cmc_stores sp enc [] ops1)) =
+  scale_close sp ienc (fst (run_cmc_stores sp enc [] ops2)).
+Proof. exact order_independent. Qed.
+Print Assumptions C04_files_function_of_set.
 
 (* slot_refuted: the faithful model does NOT satisfy the property outside the
    guard.  3x4x2 grid (sizes 24x32x16, chunk 8), minishard_bits 2, shard_bits
